@@ -819,6 +819,19 @@ def run(ctx):
     check_operator_matrix(ctx)
     check_embedding_helpers(ctx)
     check_simulator(ctx)
+    # qubit q of the register is bit q of the amplitude index only if every gate application goes through the one analysed
+    # embedding: the entry points (apply, lifted_matrix and the numeric / symbolic twins) are decided once, by C01-D5
+    from ..common import share_rule
+    from . import c01
+
+    share_rule(ctx, "C01", c01.check_embedding_paths, "C04-D7 embedding-entry")
+    from ..lints import identity_padding_on_the_left
+
+    _hits = identity_padding_on_the_left(ctx.repo, ("operators._utils", "api.wavefunction_simulator", "operators._openfermion_utils.sparse_tools", "wavefunction"))
+    for _fi, _c in _hits:
+        ctx.violation(R4, f"{_fi.key}:identity-padding:{short(_c, 40)}", f"{_fi.qualname}: `{short(_c, 90)}` widens a matrix by an identity factor on the left: qubit 0 is the leftmost Kronecker factor, so the added (higher-numbered, idle) qubits belong on the right; as written the operator acts on the last qubits of the register instead of the ones it names", f"{_fi.module.relpath}:{_c.lineno}")
+    ctx.ok(R4, "artefacts:identity-padding", f"no matrix is widened by an identity factor on the left ({len(_hits)} found)", "")
+    ctx.floor("C04-D7", 6)
     ctx.floor("C04-D1", 9)
     ctx.floor("C04-D2", 7)
     ctx.floor("C04-D3", 4)
